@@ -1301,6 +1301,10 @@ func (s *Sim) checkMembership() {
 							c.Fatalf("C11 I2: %s holds %s's leave marker but does not see it as left", o.id, id)
 						}
 					}
+					// whoever has learned everything a left node published sees it as left
+					if x != nil && x.left && !m.Left && view.Version == x.n.State.LocalNode().Version {
+						c.Fatalf("C11 I2: %s has caught up with everything %s published (version %d), %s has left, yet %s does not see it as left", o.id, id, view.Version, id, o.id)
+					}
 				}
 				if !m.Expiry.IsZero() && (!had || !p.Expiry.Equal(m.Expiry)) {
 					base := m.Expiry.Add(-gossip.VerifNodeExpiry)
